@@ -224,6 +224,17 @@ func (d *Driver) contact() Contact {
 				return Contact{&net.UDPAddr{IP: ip, Port: o.UDP.Port}, o.ID}
 			}
 			return o
+		case 8:
+			// a known contact's ID from another port of the same IP (a second process behind the
+			// same host or NAT, or an impostor): another contact, the first one's standing is untouched
+			o := gen.Pick(r, d.Contacts)
+			p := o.UDP.Port ^ (1 + r.Intn(1023))
+			if p == 0 || p > 65535 {
+				p = 1 + r.Intn(65535)
+			}
+			c := Contact{&net.UDPAddr{IP: append(net.IP(nil), o.UDP.IP...), Port: p}, o.ID}
+			d.Contacts = append(d.Contacts, c)
+			return c
 		case 6:
 			o := gen.Pick(r, d.Contacts)
 			c := Contact{d.newAddr(), o.ID}
